@@ -399,8 +399,19 @@ def write_grid(ctx: Ctx) -> None:
     ok = False
     for r in rs:
         for t, pol in facts_at(cfg, r.id):
-            if isinstance(t, ast.Compare) and isinstance(t.ops[0], (ast.NotEq, ast.Eq)) and (isinstance(t.ops[0], ast.NotEq) == pol) and "numblocks" in unparse(t.left) and "numblocks" in unparse(t.comparators[0]):
-                ok = True
+            if isinstance(t, ast.Compare) and isinstance(t.ops[0], (ast.NotEq, ast.Eq)) and (isinstance(t.ops[0], ast.NotEq) == pol):
+                # both sides are block-count tuples: variables whose definitions are
+                # compute_numblocks(...) calls (or the initial None)
+                def is_nb(e):
+                    if isinstance(e, ast.Call):
+                        return bool({f"{A.UTILS}.numblocks", f"{A.UTILS}.compute_numblocks"} & repo.callee_quals(e, g))
+                    if not isinstance(e, ast.Name):
+                        return False
+                    ds = [d_ for d_ in fl.rdefs(e.id, r.id) if not (isinstance(d_.value, ast.Constant) and d_.value.value is None)]
+                    return bool(ds) and all(isinstance(d_.value, ast.Call) and bool({f"{A.UTILS}.numblocks", f"{A.UTILS}.compute_numblocks"} & repo.callee_quals(d_.value, g)) for d_ in ds)
+
+                if is_nb(t.left) and is_nb(t.comparators[0]):
+                    ok = True
     ctx.ob(g, rs[0].stmt if rs else None, ok, "outputs whose block counts differ are refused (one task grid serves all outputs)", sel="grid:numblocks-guard")
 
 
@@ -566,17 +577,46 @@ def store_guard(ctx: Ctx) -> None:
         for r in cfg.stmts(ast.Raise):
             if "ValueError" not in unparse(r.stmt.exc):
                 continue
-            if any(pred(unparse(t, 120), pol) for t, pol in facts_at(cfg, r.id)):
-                # a guard must be able to fire before anything is built
-                if not cfg.can_reach(first_build, r.id) or True:
-                    return r
+            if any(pred(t, pol) for t, pol in facts_at(cfg, r.id)):
+                return r
         return None
 
-    g1 = has_guard(lambda s, pol: pol and "len(sources) != len(targets)" in s, "len")
+    # the (source, target, region) triples come from zip(<sources>, <targets>, <regions>)
+    lp = cfg.nodes[cfg.nodes[cfg.node_of(sa_calls[0])].loops[-1]].stmt if cfg.nodes[cfg.node_of(sa_calls[0])].loops else None
+    zargs_ = [a.id for a in lp.iter.args if isinstance(a, ast.Name)] if lp is not None and isinstance(lp.iter, ast.Call) and unparse(lp.iter.func) == "zip" else []
+    ctx.need(len(zargs_) == 3, "store: loop over zip(sources, targets, regions) not found")
+    S_, T_, R_ = zargs_
+
+    def len_mismatch(t, pol, a, b):
+        """`len(a) != len(b)` true / `len(a) == len(b)` false"""
+        if not (isinstance(t, ast.Compare) and len(t.ops) == 1 and isinstance(t.ops[0], (ast.NotEq, ast.Eq))):
+            return False
+        if isinstance(t.ops[0], ast.NotEq) != pol:
+            return False
+        sides = []
+        for x in (t.left, t.comparators[0]):
+            if isinstance(x, ast.Call) and isinstance(x.func, ast.Name) and x.func.id == "len" and x.args and isinstance(x.args[0], ast.Name):
+                sides.append(x.args[0].id)
+        return sorted(sides) == sorted([a, b])
+
+    def not_all_arrays(t, pol):
+        """any(not isinstance(s, CoreArray) for s in <sources>) true / all(isinstance(...)) false"""
+        if not (isinstance(t, ast.Call) and isinstance(t.func, ast.Name) and t.func.id in ("any", "all") and t.args and isinstance(t.args[0], (ast.GeneratorExp, ast.ListComp))):
+            return False
+        ge = t.args[0]
+        if not (isinstance(ge.generators[0].iter, ast.Name) and ge.generators[0].iter.id == S_):
+            return False
+        e = ge.elt
+        neg = isinstance(e, ast.UnaryOp) and isinstance(e.op, ast.Not)
+        e = e.operand if neg else e
+        isarr = isinstance(e, ast.Call) and isinstance(e.func, ast.Name) and e.func.id == "isinstance" and len(e.args) == 2 and "CoreArray" in unparse(e.args[1])
+        return isarr and ((t.func.id == "any" and neg and pol) or (t.func.id == "all" and not neg and not pol))
+
+    g1 = has_guard(lambda t, pol: len_mismatch(t, pol, S_, T_), "len")
     ctx.ob(st, g1.stmt if g1 else None, g1 is not None and cfg.dominates(g1.id, first_build) is False and not cfg.can_reach(first_build, g1.id), "different numbers of sources and targets → ValueError before any operation is built", sel="guard:len-targets")
-    g2 = has_guard(lambda s, pol: pol and "isinstance(s, CoreArray)" in s, "type")
+    g2 = has_guard(not_all_arrays, "type")
     ctx.ob(st, g2.stmt if g2 else None, g2 is not None and not cfg.can_reach(first_build, g2.id), "a non-cubed source → ValueError before any operation is built", sel="guard:source-type")
-    g3 = has_guard(lambda s, pol: pol and "len(sources) != len(regions_list)" in s, "regions")
+    g3 = has_guard(lambda t, pol: len_mismatch(t, pol, S_, R_), "regions")
     ctx.ob(st, g3.stmt if g3 else None, g3 is not None and not cfg.can_reach(first_build, g3.id), "different numbers of sources and regions → ValueError before any operation is built", sel="guard:len-regions")
     f = repo.get(f"{A.OPS}._store_array")
     fcfg, fl = cfg_of(f), flow_of(repo, f)
@@ -646,18 +686,32 @@ def store_eager(ctx: Ctx) -> None:
     cfg, fl = cfg_of(st), flow_of(repo, st)
     cs = repo.calls_to(st, A.COMPUTE)
     ok = len(cs) == 1
+    # the accumulator of built arrays: the list every _store_array result is appended to
+    sa_calls = repo.calls_to(st, f"{A.OPS}._store_array")
+    apps = []
+    for n in st.own_nodes():
+        if isinstance(n, ast.Call) and isinstance(n.func, ast.Attribute) and n.func.attr == "append" and isinstance(n.func.value, ast.Name) and n.args and cfg.has(n):
+            rs = fl.roots(n.args[0], cfg.node_of(n))
+            if any(r_ == f"call:{A.OPS}._store_array" for r_ in rs):
+                apps.append(n)
+    ACC = apps[0].func.value.id if apps else None
     if ok:
         c = cs[0]
         under = any(pol and isinstance(t, ast.Name) and t.id == "compute" for t, pol in facts_at(cfg, cfg.node_of(c)))
         star = [a for a in c.args if isinstance(a, ast.Starred)]
-        allarr = bool(star) and isinstance(star[0].value, ast.Name) and star[0].value.id == "arrays"
+        allarr = bool(star) and isinstance(star[0].value, ast.Name) and star[0].value.id == ACC
         ok = under and allarr
     ctx.ob(st, cs[0] if cs else None, ok, "store computes only `if compute:` and passes every built array", sel="eager:store-compute")
     rets = [r for r in cfg.returns() if r.stmt.value is not None]
-    ok = bool(rets) and all(unparse(r.stmt.value) in ("tuple(arrays)", "arrays") and any((not pol) and isinstance(t, ast.Name) and t.id == "compute" for t, pol in facts_at(cfg, r.id)) for r in rets)
+
+    def is_acc(v):
+        if isinstance(v, ast.Call) and isinstance(v.func, ast.Name) and v.func.id in ("tuple", "list") and len(v.args) == 1:
+            v = v.args[0]
+        return isinstance(v, ast.Name) and v.id == ACC
+
+    ok = bool(rets) and all(is_acc(r.stmt.value) and any((not pol) and isinstance(t, ast.Name) and t.id == "compute" for t, pol in facts_at(cfg, r.id)) for r in rets)
     ctx.ob(st, rets[0].stmt if rets else None, ok, "lazy store returns all built arrays, in order", sel="eager:store-lazy")
-    apps = [n for n in st.own_nodes() if isinstance(n, ast.Call) and isinstance(n.func, ast.Attribute) and n.func.attr == "append" and unparse(n.func.value) == "arrays"]
-    ok = len(apps) == 1 and not [b for _, _, b in cfg.branch_conditions(cfg.node_of(apps[0])) if cfg.nodes[cfg.node_of(apps[0])].loops and cfg.in_loop(b, cfg.nodes[cfg.node_of(apps[0])].loops[-1])]
+    ok = len(apps) == 1 and len(sa_calls) == 1 and not [b for _, _, b in cfg.branch_conditions(cfg.node_of(apps[0])) if cfg.nodes[cfg.node_of(apps[0])].loops and cfg.in_loop(b, cfg.nodes[cfg.node_of(apps[0])].loops[-1])]
     ctx.ob(st, apps[0] if apps else None, ok, "every pair's array is collected (no filter)", sel="eager:store-collect")
     tz = repo.get(f"{A.OPS}.to_zarr")
     tcfg = cfg_of(tz)
